@@ -3602,6 +3602,17 @@ static Token *function(Token *tok, Type *basety, VarAttr *attr) {
       error_tok(tok, "static declaration follows a non-static declaration");
     fn->is_definition = fn->is_definition || equal(tok, "{");
 
+    // A function is an inline definition - which we treat like a static
+    // one - only if all its file-scope declarations say 'inline' and
+    // none says 'extern' (C11 6.7.4p7). Any other declaration makes it
+    // an external definition.
+    if (fn->static_by_inline && !attr->is_static &&
+        (!attr->is_inline || attr->is_extern)) {
+      fn->is_static = false;
+      fn->static_by_inline = false;
+    }
+    fn->is_inline = fn->is_inline || attr->is_inline;
+
     // A declaration in a block makes the function visible in that
     // block, hiding an object of the same name in an enclosing scope.
     if (scope->next)
@@ -3611,12 +3622,9 @@ static Token *function(Token *tok, Type *basety, VarAttr *attr) {
     fn->is_function = true;
     fn->is_definition = equal(tok, "{");
     fn->is_static = attr->is_static || (attr->is_inline && !attr->is_extern);
+    fn->static_by_inline = !attr->is_static && fn->is_static;
     fn->is_inline = attr->is_inline;
   }
-
-  // A file-scope reference seen before this (re)declaration may
-  // already have made the function a root.
-  fn->is_root = fn->is_root || !(fn->is_static && fn->is_inline);
 
   if (consume(&tok, tok, ";"))
     return tok;
@@ -3773,8 +3781,11 @@ Obj *parse(Token *tok) {
     tok = global_variable(tok, basety, &attr);
   }
 
+  // Every function is emitted except static inline functions that
+  // nobody refers to. That is decided here, when all declarations of a
+  // function have been seen: a later one may add 'inline' or 'extern'.
   for (Obj *var = globals; var; var = var->next)
-    if (var->is_root)
+    if (var->is_function && (var->is_root || !(var->is_static && var->is_inline)))
       mark_live(var);
 
   // Remove redundant tentative definitions.
